@@ -115,21 +115,15 @@ def run(tier, seed, ck=None):
     ck.ground('C04.Hex', 'Hex() is the hex encoding of exactly the bytes of Encode(), on every path', len(rets) >= 2 and all(
         p['obs']['hex']['elems'] == p['obs']['enc']['elems'] and p['obs']['hex']['label'] == 'hexenc' for p in rets))
     if own:
-        # Decode(Encode(P)) = P composes the encoder specification above with the decoder specification: the decoders' obligations
-        # (C03) are re-proved on the current tree, always at the quick lengths (the round trip only uses lengths 1, 33, 65)
+        # Decode(Encode(P)) = P composes the encoder specification above with the part of the decoder specification it needs (Decode on
+        # lengths 1, 33, 65: no panic, canonical encodings not rejected, accepted input gives that point), re-proved on the current tree
         from props import C03
-        C03.run('quick', seed, ck)
+        if C03.roundtrip(tier, seed, ck) and not ck.violations:
+            battery('roundtrip', 'Decode does not give back the encoded point')
         # the bytes depend only on the group element, never on how it was computed: no hidden state behind the observers
         from props import hidden
-        hf = hidden.run(ck, tier, which=('element',))
-        if hf and not ck.violations:
-            path = ck.save_replay({'property': 'C04', 'cases': [{'kind': 'hidden-element', 'n': f_[2]} for f_ in hf[:8]]})
-            ok, out = core.go_test(path)
-            if not ok and 'MISMATCH' in out:
-                ck.violation('hidden-state', 'an encoding depends on hidden state after %s: %s' % (hf[0][0], [l.strip() for l in out.splitlines() if 'MISMATCH' in l][:1]), path)
-            else:
-                ck.inconclusive.append('hidden-state finding %s did not reproduce' % (hf[0],))
-    if any(not o['ok'] for o in ck.obls) and not ck.violations:
+        hidden.embed(ck, tier, ('element',), 'C04', 'an encoding', observers=['enc', 'unc'])
+    if any(not o['ok'] for o in ck.obls) and not ck.violations and not ck.inconclusive:
         battery('encode:structure', 'a structural obligation failed')
     return ck.finish() if own else None
 
